@@ -19,7 +19,8 @@ RUN_MODULE = 'Run.C14'
 THEOREMS = ['C14_requests_partition', 'C14_outcome_once', 'C14_writes_match_misses', 'C14_language_sums',
             'C14_compilations', 'C14_schedules_cover_interleavings', 'C14_every_request_is_a_program',
             'C14_hit_did_not_compile', 'C14_panic_is_an_error_outcome', 'C14_not_cacheable_compile_is_executed_only',
-            'C14_dist_client_error_is_an_error_outcome', 'C14_zero_midflight_refuted']
+            'C14_dist_client_error_is_an_error_outcome', 'C14_every_request_in_one_class',
+            'C14_unsuccessful_status_has_an_outcome', 'C14_zero_midflight_refuted']
 ASSUMPTIONS = [
     'each critical section on the statistics mutex is atomic (tokio::sync::Mutex); the laws are claimed at quiescent '
     'points (no request in flight), zeroing included only there: C14_zero_midflight_refuted shows that is inherent',
